@@ -18,6 +18,7 @@
    Timestamps (`#123`) are tokenised outside Coq (LTime t); value-change lines are parsed here from
    their characters. *)
 From PV Require Import Base.Prelude.
+(* stdlib strings *)
 From Coq Require Import Strings.Ascii Strings.String.
 Open Scope Z_scope.
 
